@@ -2,6 +2,7 @@ from __future__ import annotations
 
 import enum
 import logging
+import re
 import time
 import types
 import typing
@@ -24,6 +25,26 @@ from .._trace import Trace
 from .interfaces import ConnectionInterface
 
 logger = logging.getLogger("httpcore.http2")
+
+
+# The `h2` package does not check that the request head is well formed.
+# RFC 9113, Section 8.2.1: field names are tokens, and field values contain no NUL, CR or LF.
+TOKEN_REGEX = re.compile(rb"[!#$%&'*+\-.^_`|~0-9a-zA-Z]+")
+ILLEGAL_TARGET_REGEX = re.compile(rb"[\x00-\x20\x7f]")
+ILLEGAL_VALUE_REGEX = re.compile(rb"[\x00\r\n]")
+
+
+def validate_request_head(request: Request) -> None:
+    if not TOKEN_REGEX.fullmatch(request.method):
+        raise LocalProtocolError("Illegal method characters")
+    target = request.url.target
+    if not target or ILLEGAL_TARGET_REGEX.search(target):
+        raise LocalProtocolError("Illegal target characters")
+    for name, value in request.headers:
+        if not TOKEN_REGEX.fullmatch(name):
+            raise LocalProtocolError(f"Illegal header name {name!r}")
+        if ILLEGAL_VALUE_REGEX.search(value):
+            raise LocalProtocolError(f"Illegal header value {value!r}")
 
 
 def has_body_headers(request: Request) -> bool:
@@ -219,6 +240,7 @@ class HTTP2Connection(ConnectionInterface):
         """
         Send the request headers to a given stream ID.
         """
+        validate_request_head(request)
         end_stream = not has_body_headers(request)
 
         # In HTTP/2 the ':authority' pseudo-header is used instead of 'Host'.
